@@ -319,16 +319,25 @@ func Run(r *mc.Run) {
 	concs := []string{"amd64", "i386", "kfreebsd-amd64", "hurd-i386", "musl-linux-amd64"}
 	var lists [][]string
 	lists = append(lists, nil)
+	if !r.Quick() {
+		pats = append(pats, "hurd-any", "any-arm64", "musl-linux-any", "all")
+		concs = append(concs, "arm64", "hurd-amd64", "all", "gnu-linux-i386")
+	}
 	for _, a := range pats {
 		lists = append(lists, []string{a})
 		for _, b := range pats {
 			lists = append(lists, []string{a, b})
 			for _, c := range pats {
 				lists = append(lists, []string{a, b, c})
+				if !r.Quick() {
+					for _, d := range pats[:6] {
+						lists = append(lists, []string{a, b, c, d})
+					}
+				}
 			}
 		}
 	}
-	r.Scenario("archset-matches", map[string]interface{}{"patterns": pats, "max_list_len": 3, "architectures": concs, "constructions": "Parse / struct"}, len(lists), func(i int, st *mc.Stats) bool {
+	r.Scenario("archset-matches", map[string]interface{}{"patterns": pats, "max_list_len": r.Pick(3, 4), "architectures": concs, "constructions": "Parse / struct"}, len(lists), func(i int, st *mc.Stats) bool {
 		for _, not := range []bool{false, true} {
 			for _, c := range concs {
 				for _, via := range []string{"parse", "struct"} {
